@@ -558,6 +558,11 @@ class Executor:
                     # phase 2 (on the case's own state): arguments are re-read there
                     argv2 = [self.operand(s2, f2, a) for a in args]
                     val = c.apply(self, s2, argv2)
+                    if s2.world.pop("__panicked", False):
+                        # the contract found the call to panic (unwrap / expect on the failing variant): an outcome of the
+                        # path, not a value to go on with
+                        self.on_panic(s2, self._on_done)
+                        continue
                     if dest is not None:
                         self.write_place(s2, f2, dest, val)
                     if ret is None:
@@ -665,6 +670,17 @@ class Executor:
                         self.enter(st, fr, ret)
                         out.append(st)
                         return out
+                # a function of the crate under analysis passed by name: execute its MIR body
+                fname = strip_generics(f.name).strip()
+                hits = [fn for n, fn in self.fns.items() if n == fname or n.endswith("::" + fname)]
+                if len(hits) == 1:
+                    nf = Frame(hits[0], cell, ret)
+                    nf.post = wrap
+                    nf.locals[hits[0].args[0][0]] = Cell(inner)
+                    self.functions_used.add(hits[0].name)
+                    st.frames.append(nf)
+                    out.append(st)
+                    return out
                 raise Inconclusive(f"{key} with unmodelled function item {f.name}")
             self.call_closure(st, f, [inner], cell, ret, post=wrap)
             out.append(st)
@@ -835,6 +851,12 @@ class Executor:
             return out
         if kind == "call":
             _, dest, callee, args, ret = t
+            if ret is None and re.search(r"panic|unwrap_failed|expect_failed", callee):
+                # an explicit panic!(), assert!(), unreachable!() ... : a diverging call into the panic machinery
+                st.effects.append(("panic", callee, fr.fn.short(), fr.block))
+                self.on_panic(st, on_done)
+                return []
+            self._on_done = on_done
             return self.dispatch(st, fr, dest, callee, args, ret)
         raise Unsupported("terminator kind " + kind)
 
